@@ -592,14 +592,19 @@ package xpath
 //@   uses one-document
 //@   loop * invariant[cursor@C13] cur(t) == old(cur(t)) && pos(cur(t)) == old(pos(cur(t)))
 //@ func reverseFunc
-//@   props C15 C13
+//@   props C15 C13 C12
+//@   mode int
 //@   conforms transformFunctionQuery.Func
-//@   theory stream for C13
+//@   theory stream for C13 C12
 //@   uses one-document
+//@   owns-navigators list
+//@   loop 0 invariant[collected@C12] epoch(q) == old(epoch(q)) && len(list) == k(q) - old(k(q)) && forall(j, int, 0 <= j && j < len(list) ==> list[j] != nil && pos(list[j]) == spos(ref(q), epoch(q), old(k(q)) + j))
 //@   loop * invariant[cursor@C13] cur(t) == old(cur(t)) && pos(cur(t)) == old(pos(cur(t)))
 //@ func reverseFunc$1
-//@   props C15
+//@   props C15 C12
 //@   captures 0 <= i && i <= len(list)
+//@   ensures[last-first@C12] old(i) > 0 ==> result == list[old(i) - 1] && i == old(i) - 1
+//@   ensures[then-nil@C12] old(i) <= 0 ==> result == nil && i == old(i)
 
 // ---------------------------------------------------------------------------
 // Step iterators (query.go): the closures installed in .iterator capture the
